@@ -775,6 +775,170 @@ fn rconcat<W: Write>(r: &mut Rng, n: usize, out: &mut W) -> usize {
     n
 }
 
+fn sessions<W: Write>(r: &mut Rng, n: usize, out: &mut W) -> usize {
+    for _ in 0..n {
+        // three parsed leaves sharing a small pool of numbers and tags, so that they overlap, touch and nest
+        let base = component(r).min(MAX_SAFE_INTEGER - 3);
+        let pool = [base, base + 1, base + 2, 0, 1];
+        let tag_pool: Vec<Vec<String>> = (0..2).map(|_| (0..1 + r.below(2)).map(|_| raw_ident(r)).collect()).collect();
+        let mut steps: Vec<Value> = Vec::new();
+        for reg in 1..=3 {
+            let mut parts = Vec::new();
+            let nalts = 1 + r.below(2);
+            let mut text = String::new();
+            for i in 0..nalts {
+                if i > 0 {
+                    text.push_str(" || ");
+                }
+                let (_, t, _) = alt_ast(r, &pool, &tag_pool, true, &mut parts);
+                text.push_str(&t);
+            }
+            steps.push(json!({"c":"rparse","dst":reg,"text":bytes(&text)}));
+        }
+        let (a, b, c) = match r.below(6) {
+            0 => (1, 2, 3),
+            1 => (2, 1, 3),
+            2 => (3, 2, 1),
+            3 => (1, 3, 2),
+            4 => (2, 3, 1),
+            _ => (3, 1, 2),
+        };
+        let op = |c: &str, d: u64, x: u64, y: u64| json!({"c":c,"dst":d,"a":x,"b":y,"nilok":true});
+        let eq = |l: u64, rr: u64| json!({"c":"ident","kind":"eq","l":l,"r":rr});
+        let empty = |l: u64| json!({"c":"ident","kind":"empty","l":l,"r":l});
+        let mut results: Vec<u64> = Vec::new();
+        match r.below(7) {
+            0 => {
+                steps.extend([op("isect", 4, a, b), op("isect", 5, b, a), eq(4, 5)]);
+                results.extend([4, 5]);
+            }
+            1 => {
+                steps.extend([op("isect", 4, a, a), eq(4, a), op("diff", 5, a, a), empty(5)]);
+                results.extend([4]);
+            }
+            2 => {
+                steps.extend([op("diff", 4, a, b), op("isect", 5, 4, b), empty(5)]);
+                results.extend([4]);
+            }
+            3 => {
+                // A is the disjoint union of A∩B and A∖B
+                steps.extend([op("isect", 4, a, b), op("diff", 5, a, b), op("isect", 6, 4, 5), empty(6),
+                              op("diff", 7, a, 4), eq(7, 5), op("diff", 8, a, 5), eq(8, 4)]);
+                results.extend([4, 5, 7, 8]);
+            }
+            4 => {
+                steps.extend([op("diff", 4, a, b), op("diff", 5, a, 4), op("isect", 6, a, b), eq(5, 6)]);
+                results.extend([4, 5, 6]);
+            }
+            5 => {
+                steps.extend([op("isect", 4, a, b), op("isect", 5, 4, c), op("isect", 6, b, c), op("isect", 7, a, 6), eq(5, 7)]);
+                results.extend([4, 5, 6, 7]);
+            }
+            _ => {
+                // a random chain: results fed back as operands
+                let mut defined = vec![1u64, 2, 3];
+                for d in 4..8u64 {
+                    let x = *r.pick(&defined);
+                    let y = *r.pick(&defined);
+                    steps.push(op(if r.chance(1, 2) { "isect" } else { "diff" }, d, x, y));
+                    defined.push(d);
+                    results.push(d);
+                }
+            }
+        }
+        for d in results {
+            steps.push(json!({"c":"print","dst":9,"a":d}));
+            if r.chance(1, 3) {
+                steps.push(json!({"c":"minv","a":d}));
+            }
+        }
+        writeln!(out, "{}", json!({"op":"steps","steps":steps})).unwrap();
+    }
+    n
+}
+
+fn soup<W: Write>(r: &mut Rng, n: usize, out: &mut W) -> usize {
+    const TOK: &[&str] = &[
+        "0", "1", "2", "9", "10", "900719925474099", "900719925474100", "18446744073709551615", "18446744073709551616",
+        ".", ".", "-", "+", "*", "x", "X", "v", "^", "~", "~>", ">", "<", ">=", "<=", "=", "|", "||", " ", " ", "\t", "a", "-a", "-0",
+        "é", " - ", "1.2.3", "\n", "\0", "😀", "-rc.1", "+b", ".x", ".*", "1.x", "foo",
+    ];
+    let emit = |out: &mut W, t: &str| writeln!(out, "{}", json!({"op":"soup","text":bytes(t)})).unwrap();
+    let mut cnt = 0;
+    // overflow sites: every operator form on numbers at the limit
+    let lim = ["900719925474099", "900719925474098", "900719925474100", "18446744073709551615"];
+    for a in lim {
+        for form in [
+            "{}", ">{}", ">={}", "<{}", "<={}", "={}", "^{}", "~{}", "~>{}", "{}.x", "1.{}", "^1.{}", "~1.{}", ">1.{}", "<=1.{}", "^0.{}", "^0.0.{}",
+            "1.2.{}", "^0.0.{}-a", "{}.{}.{}", "^{}.{}.{}", "~{}.{}", ">{}.{}", "1 - {}", "{} - {}", "1.{} - 2", "1 - 1.{}", ">{} <{}", "^{} || ~{}",
+            "1.2.3-{}", ">1.2.3-{}", "<1.2.3-{}.0",
+        ] {
+            emit(out, &form.replace("{}", a));
+            cnt += 1;
+        }
+    }
+    // lengths around MAX_LENGTH, ending in multi-byte characters
+    for total in [255usize, 256, 257, 258, 1024] {
+        for tail in ["", "é", "€", "😀"] {
+            for head in ["1.2.3-", ">=1.2.3-", "", "1.2.3 || ", "^"] {
+                let fill = total.saturating_sub(head.len() + tail.len());
+                emit(out, &format!("{}{}{}", head, "a".repeat(fill), tail));
+                emit(out, &format!("{}{}{}", head, "1".repeat(fill), tail));
+                cnt += 2;
+            }
+        }
+    }
+    while cnt < n {
+        let mut t = String::new();
+        match r.below(4) {
+            0 => {
+                let (_, text, _) = range_ast(r, 3, true);
+                t = text;
+                // damage it a little
+                for _ in 0..r.below(3) {
+                    let pos = r.below(t.len() as u64 + 1) as usize;
+                    if t.is_char_boundary(pos) {
+                        { let tk: &str = *r.pick(TOK); t.insert_str(pos, tk); }
+                    }
+                }
+            }
+            1 => {
+                t = version(r).to_string();
+                for _ in 0..r.below(3) {
+                    let pos = r.below(t.len() as u64 + 1) as usize;
+                    if t.is_char_boundary(pos) {
+                        { let tk: &str = *r.pick(TOK); t.insert_str(pos, tk); }
+                    }
+                }
+            }
+            _ => {
+                for _ in 0..(1 + r.below(14)) {
+                    { let tk: &str = *r.pick(TOK); t.push_str(tk); }
+                }
+            }
+        }
+        emit(out, &t);
+        cnt += 1;
+    }
+    cnt
+}
+
+fn timing<W: Write>(_r: &mut Rng, n: usize, out: &mut W) -> usize {
+    // n is the smallest size in bytes; each unit is run at n, 2n, 4n, 8n
+    let units = ["1", "1.", "1.2.3 ", ">=1.2.3 ", "1.2.3||", " ", "x", "^1.2.3 ", "1.2.3 - 2.0.0 ", "foo ", "-", "||", "1.2.3-a.b.c.d ", ">", "v", "é",
+                 "~>", "<=1 ", "1.2.3+b ", "* ", "\t", ">=1.2.3 <2.0.0 || ", "900719925474099.", "0"];
+    let mut cnt = 0;
+    for u in units {
+        writeln!(out, "{}", json!({"op":"timing","parser":"range","unit":bytes(u),"n":n as u64})).unwrap();
+        cnt += 1;
+    }
+    for u in ["1", "1.2.3-a.", " ", "v", "1.2.3+b."] {
+        writeln!(out, "{}", json!({"op":"timing","parser":"version","unit":bytes(u),"n":n as u64})).unwrap();
+        cnt += 1;
+    }
+    cnt
+}
+
 fn rtext<W: Write>(r: &mut Rng, n: usize, out: &mut W) -> usize {
     for _ in 0..n {
         let (ast, text, vs) = range_ast(r, 3, true);
@@ -798,6 +962,9 @@ pub fn generate<W: Write>(scenario: &str, seed: u64, n: usize, out: &mut W) -> u
         "vtuples" => vtuples(&mut r, n, out),
         "rtext" => rtext(&mut r, n, out),
         "rconcat" => rconcat(&mut r, n, out),
+        "sessions" => sessions(&mut r, n, out),
+        "soup" => soup(&mut r, n, out),
+        "timing" => timing(&mut r, n, out),
         _ => {
             eprintln!("unknown scenario {}", scenario);
             std::process::exit(2);
